@@ -155,6 +155,19 @@ ADDENDA4 = {
     'C19': ' The final partial batch is sent for every non-zero length (len-based tests evaluated); every path that inserts with a merger configured inserts the fold.',
 }
 
+ADDENDA5 = {
+    'C01': ' Map / set level stream adapters ask the wrapped stream once per call and never loop (R01.7); the common-input tables (R09.1) are decided here too.',
+    'C02': ' Integer packing (R09.4) is decided here too.',
+    'C04': ' The seek endgames, lock step and empty-key gating of range streams (R03.4-R03.6) are decided on the with-state paths too.',
+    'C05': ' The slot hands out the key it was given for every key length (R05.9); the 16 range-wrapper setters delegate name for name (R03.2 shared).',
+    'C06': ' Ordering errors carry the whole key.',
+    'C09': ' No command produces its FST by copying a file (R09.10).',
+    'C12': ' No registry routine refuses a node while the row has cells.',
+    'C13': ' Builder buffers are not sized by what has been built so far (R13.5); the batching loop compares against a fixed bound (R13.6).',
+    'C15': ' The cache geometry arguments are single literals (not a choice between literals); the checksum that ends the file is read in one routine only (R15.5).',
+    'C19': ' The concatenating readers hand out every row they draw and the CSV readers are not configured to trim / skip / re-split rows.',
+}
+
 NOT_APPLICABLE = {
     'C17': 'Acceptance is a property of a DFA constructed at run time from the query; no clause has a structural counterpart that a sound static rule within reach could decide (DESIGN.md §6).',
 }
@@ -169,7 +182,7 @@ def main():
         if pid not in CLAIMS:
             continue
         cat, text, note, tech, ref = CLAIMS[pid]
-        text = text + ADDENDA.get(pid, '') + ADDENDA2.get(pid, '') + ADDENDA3.get(pid, '') + ADDENDA4.get(pid, '')
+        text = text + ADDENDA.get(pid, '') + ADDENDA2.get(pid, '') + ADDENDA3.get(pid, '') + ADDENDA4.get(pid, '') + ADDENDA5.get(pid, '')
         checks.append({
             'property_id': pid,
             'quick_cmd': './check %s --tier quick' % pid,
